@@ -141,6 +141,8 @@ PCompound(s, T, i) ==
                           vals == ValueTexts(s, SkipWsc(s, e + 1))
                       IN Go(j + 1, Append(acc, IF k = "pseudo_lang" THEN [k |-> "lang", ranges |-> vals]
                                                ELSE [k |-> "contains", vals |-> vals, own |-> nm = KwContainsOwn]))
+            ELSE IF k = "pseudo_class_custom"      \* :--name : css_unescape, then lower case (the key under which the map holds the definition)
+                 THEN Go(j + 1, Append(acc, [k |-> "custom", name |-> NameText(s, T[j].a, T[j].b)]))
             ELSE IF k = "pseudo_dir"
                  THEN LET a0 == SkipWsc(s, PseudoName(s, T[j].a) + 1)
                       IN Go(j + 1, Append(acc, [k |-> "dir", d |-> IF LowC(s[a0]) = 108 THEN "ltr" ELSE "rtl"]))
